@@ -112,19 +112,34 @@ func addNotes(t *rapid.T, m *ref.SNode, st *gen.Style) {
 			return
 		}
 		// inline notes on the items of an enum written inside a multi-line annotation
-		for i := range n.Rules {
-			r := &n.Rules[i]
-			if r.Name != "enum" || r.ValKind != ref.RVEnum || rapid.IntRange(0, 2).Draw(t, "itemNotes") != 0 {
-				continue
-			}
-			items := append([]ref.EnumItem(nil), r.Enum...)
-			for k := range items {
-				if rapid.IntRange(0, 2).Draw(t, "itemNote") > 0 {
-					items[k].Comment = rapid.SampledFrom([]string{"plain note", "tag #c-sharp", "see ticket #42", "a - b", "ünï", "x // y"}).Draw(t, "itemNoteText")
+		var noteItems func(rules []ref.SRule)
+		noteItems = func(rules []ref.SRule) {
+			for i := range rules {
+				r := &rules[i]
+				if r.Name == "or" && r.ValKind == ref.RVOr {
+					// the enum of a rule set inside an or rule takes item notes just the same
+					for k := range r.Or {
+						if len(r.Or[k].Rules) > 0 {
+							rs := append([]ref.SRule(nil), r.Or[k].Rules...)
+							noteItems(rs)
+							r.Or[k].Rules = rs
+						}
+					}
+					continue
 				}
+				if r.Name != "enum" || r.ValKind != ref.RVEnum || rapid.IntRange(0, 2).Draw(t, "itemNotes") != 0 {
+					continue
+				}
+				items := append([]ref.EnumItem(nil), r.Enum...)
+				for k := range items {
+					if rapid.IntRange(0, 2).Draw(t, "itemNote") > 0 {
+						items[k].Comment = rapid.SampledFrom([]string{"plain note", "tag #c-sharp", "see ticket #42", "a - b", "ünï", "x // y"}).Draw(t, "itemNoteText")
+					}
+				}
+				r.Enum = items
 			}
-			r.Enum = items
 		}
+		noteItems(n.Rules)
 	})
 }
 
